@@ -231,8 +231,14 @@ def _run(ctx):
     # R3 ----------------------------------------------------------------
     nconv = 0
     for fn, allowed in sorted(CONVERSIONS.items()):
-        body = ctx.body(fn)
-        paths = mir.walk_function(body)
+        # (the adapter is judged as one function: a new helper it hands the read's result to -- `classify_read(r, "keyboard")`
+        # -- is copied into it first; helpers of the pinned tree stay calls)
+        mir.Walker.AUTO_INLINE = True
+        try:
+            body = ctx.body(fn)
+            paths = mir.walk_function(body)
+        finally:
+            mir.Walker.AUTO_INLINE = False
         # the underlying fallible call: first call whose result is matched as a Result
         seen_conv = set()
         err_paths = 0
